@@ -112,6 +112,21 @@ def run(ctx):
         smp = fr.time.samples
         tmin = None if rng.random() < 0.3 else float(rng.choice(smp) + rng.choice([0, 0, dt / 3, -dt / 3]))
         tmax = None if rng.random() < 0.3 else float(rng.choice(smp) + rng.choice([0, 0, dt / 3, -dt / 3]))
+        # limits outside the recorded interval (a window may start before the record or end after it)
+        dur = float(smp[-1] - smp[0]) + dt
+        u = rng.random()
+        if u < 0.2:
+            tmin = float(smp[0] - rng.uniform(0.05, 0.95) * dur)
+            ctx.count("detect:tmin_before_record")
+        elif u < 0.3:
+            tmin = float(smp[0] - rng.uniform(2, 50) * dur)
+            ctx.count("detect:tmin_far_before_record")
+        v = rng.random()
+        if v < 0.2:
+            tmax = float(smp[-1] + rng.uniform(0.05, 0.95) * dur)
+            ctx.count("detect:tmax_after_record")
+        elif v < 0.25:
+            tmax = float(smp[-1] + rng.uniform(2, 50) * dur)
         cj = {"op": "detect_surface_from_extrema", "samples": smp.tolist(), "trace": tr.tolist(), "tmin": tmin, "tmax": tmax}
         sel = np.ones(ns, dtype=bool)
         if tmin is not None:
@@ -121,7 +136,11 @@ def run(ctx):
         ctx.case(("det", smp.tobytes(), tr.tobytes(), tmin, tmax), sel.sum() >= 2)
         if sel.sum() == 0:
             continue
-        got = measurement.detect_surface_from_extrema(fr, tmin, tmax)
+        try:
+            got = measurement.detect_surface_from_extrema(fr, tmin, tmax)
+        except Exception as e:   # the window contains samples: the call must succeed
+            ctx.violate(f"detect_surface_from_extrema raises {type(e).__name__} although {int(sel.sum())} samples lie in the window [{tmin}, {tmax}]", cj, {"kind": "detect"})
+            continue
         for k in range(2):
             w = np.abs(tr[k][sel])
             want = smp[sel][int(np.argmax(w))]
